@@ -305,7 +305,7 @@ class Describer:
                 return ('agg', kd[0], canon(kd[1]), args)
             return ('agg', kd[0], '', args)
         if k == 'rep':
-            return ('agg', 'repeat', '', (self.operand(rv[1], bb, idx, depth),))
+            return ('agg', 'repeat', 'repeat[%s]' % str(rv[2]).replace('_usize', ''), (self.operand(rv[1], bb, idx, depth),))
         return ('const', 'other', str(rv[1])[:80], '')
 
     def call_desc(self, c, depth):
@@ -396,9 +396,16 @@ def has_call(d, *shorts):
     from .facts import path_matches
     for x in walk(d):
         if x[0] == 'call':
-            if any(x[1] == s or path_matches(x[2], s) for s in shorts):
+            if any(x[1] == s or path_matches(x[2], s) or _trait_form(x[1]) == s for s in shorts):
                 return True
     return False
+
+
+def _trait_form(sh):
+    """`<X as Tr>::m` -> `Tr::m`"""
+    if sh.startswith('<') and ' as ' in sh and '>::' in sh:
+        return sh.split(' as ', 1)[1].replace('>::', '::', 1)
+    return sh
 
 
 def has_const(d, value=None, named=None):
